@@ -213,6 +213,10 @@ def run(ctx):
                 continue
             got[r["x"]] = r
         rep.evaluations += len(got)
+        if prop in ("C05", "C11"):
+            # these two properties are decided in the spec -> code direction only (every replayed TLC behaviour is a trace
+            # of the specification validated against the implementation step by step); AlgMon has no rule set for them
+            rep.traces += len(got)
         nviol = 0
         rel = RELEVANT.get(prop, ())
         mem_props = ("C02", "C18")
